@@ -14,7 +14,7 @@ From Flocq Require Import BinarySingleNaN.
 
 (* within the ParseNumber limits +-MAX_PARSE_VALUE *)
 Definition i32_ok (n : Z) : bool := (- max_parse_value <=? n) && (n <=? max_parse_value).
-(* plain str::parse::<i32> (bookmarks): the whole i32 range *)
+(* plain str::parse::<i32> (the effect flags of a timing point): the whole i32 range *)
 Definition raw_i32_ok (n : Z) : bool := (i32_min <=? n) && (n <=? i32_max).
 Definition u8_ok (n : Z) : bool := (0 <=? n) && (n <=? 255).
 (* index of a four-variant enum (GameMode, CountdownType, SampleBank) *)
@@ -88,7 +88,7 @@ Definition carry_general (g : GeneralState) (c : ControlPoints) : GeneralState :
 (* ---------- [Editor] ---------- *)
 
 Definition editor_ok (e : EditorState) : bool :=
-  forallb raw_i32_ok (ed_bookmarks e) && in_lim64 (ed_distance_spacing e) &&
+  forallb i32_ok (ed_bookmarks e) && in_lim64 (ed_distance_spacing e) &&
   i32_ok (ed_beat_divisor e) && i32_ok (ed_grid_size e) && in_lim64 (ed_timeline_zoom e).
 
 (* ---------- [Metadata] ---------- *)
@@ -187,7 +187,8 @@ Definition representable (e : edit) (m : BeatmapV) : bool :=
   | EdCountdown n => enum4_ok n
   (* a countdown offset is carried when positive; 0 is the default *)
   | EdCountdownOffset n => i32_ok n && (0 <=? n)
-  | EdBookmarks l => forallb raw_i32_ok l
+  (* bookmarks are numbers of the format like any other: within the parse limits *)
+  | EdBookmarks l => forallb i32_ok l
   | EdDistanceSpacing x | EdTimelineZoom x => in_lim64 x
   | EdBeatDivisor n | EdGridSize n => i32_ok n
   | EdTitle s | EdTitleUnicode s | EdArtist s | EdArtistUnicode s
